@@ -7,8 +7,6 @@ Import ListNotations.
 Local Arguments is_ws : simpl never.
 
 (* ---------------------------------------------------------------- whitespace *)
-Definition nows (s : str) : str := filter (fun c => negb (is_ws c)) s.
-Definition all_ws (s : str) : bool := forallb is_ws s.
 
 Lemma nows_app a b : nows (a ++ b) = nows a ++ nows b.
 Proof. apply filter_app. Qed.
